@@ -47,7 +47,11 @@ R == G.runs[ri]
 Evs == R.ev
 One == G.one
 Cfg == G.cfg
-A == [every |-> Cfg.every, nfinal |-> Cfg.n_final, maxn |-> Cfg.max_n_steps, path |-> Cfg.has_path]
+RCOf(i) == IF i <= Len(G.runs) THEN G.runs[i].rcfg ELSE G.runs[1].rcfg     \* per-run arguments
+AOf(i) == [every |-> RCOf(i).every, nfinal |-> RCOf(i).n_final, maxn |-> RCOf(i).max_n_steps,
+           path |-> RCOf(i).has_path]
+RC == RCOf(ri)
+A == AOf(ri)
 
 FreshAux == [phase |-> "init", sumN |-> 0, enl |-> FALSE, ckIters |-> <<>>, gotFinal |-> FALSE]
 FreshGaux == [hasRef |-> FALSE, ref |-> [none |-> TRUE], lastBytes |-> 0, refLogz |-> 0]
@@ -127,11 +131,16 @@ Process(ev, i) ==
     [] ev.t = "kbegin" ->
          LET adv == AdvanceCk(s)
              t0 == adv.st
-             \* no resampling happened (identical temperature): the iteration starts here
-             t1 == IF t0.pc = "top" THEN DoResample(DoTemper(t0, ev.beta, t0.minStep), ev.beta, t0.size, <<"res">>)
+             \* no resampling was observed (identical temperature, or a sampler whose
+             \* generator is not observable): the block starts here
+             t1 == IF t0.pc = "top"
+                     THEN DoResample(DoTemper(t0, ev.beta, t0.minStep), ev.beta, t0.size, <<"res">>)
+                   ELSE IF t0.pc = "enlarge_test"
+                     THEN DoFinalResample(DoEnlargeTest(t0, A), A, <<"res">>)
                    ELSE t0
-         IN [s |-> t1, aux |-> [aux EXCEPT !.phase = "inker"], gaux |-> gaux,
-             v |-> adv.v \cup V(ev.beta = t1.beta, "conf_kernel_beta") \cup V(ev.n = t1.size, "conf_kernel_size")
+             enl == IF t0.pc = "top" THEN FALSE ELSE IF t0.pc = "enlarge_test" THEN TRUE ELSE aux.enl
+         IN [s |-> t1, aux |-> [aux EXCEPT !.phase = "inker", !.enl = enl], gaux |-> gaux,
+             v |-> adv.v \cup V(ev.beta = (IF enl THEN One ELSE t1.beta), "conf_kernel_beta") \cup V(ev.n = t1.size, "conf_kernel_size")
                        \cup V(t1.pc \in {"kernel", "fkernel"}, "conf_kernel_unexpected")
                        \cup V(Cfg.rng_route = "none" \/ ev.rng_user, "UserRngUsed")]
     [] ev.t = "kend" ->
@@ -139,17 +148,23 @@ Process(ev, i) ==
                 ELSE DoKernel(s, s.beta, 0, <<"zout", ev.out>>),
           aux |-> [aux EXCEPT !.phase = "postk"], gaux |-> gaux, v |-> {}]
     [] ev.t = "ckpt" ->
-         IF s.pc = "ckpt"
+         IF s.pc = "ckpt" /\ Due(s, A, FALSE)
            THEN [s |-> DoExit(DoCkpt(s, A, FALSE), A, One),
                  aux |-> [aux EXCEPT !.ckIters = Append(@, <<ev.iter, FALSE>>)],
                  gaux |-> [gaux EXCEPT !.lastBytes = ev.bytes],
-                 v |-> V(Due(s, A, FALSE), "CadenceExact") \cup PayloadOK(s, ev)]
-         ELSE LET t1 == IF s.pc = "enlarge_test" THEN DoEnlargeTest(s, A) ELSE s
+                 v |-> PayloadOK(s, ev)]
+         ELSE \* not a regular checkpoint: it must be the forced one at the end of the run
+              LET t0 == AdvanceCk(s).st
+                  t1 == IF t0.pc = "enlarge_test" THEN DoEnlargeTest(t0, A) ELSE t0
                   t2 == DoEvidence(t1)
-              IN [s |-> DoCkpt(t2, A, TRUE),
-                  aux |-> [aux EXCEPT !.ckIters = Append(@, <<ev.iter, TRUE>>)],
-                  gaux |-> [gaux EXCEPT !.lastBytes = ev.bytes],
-                  v |-> V(t1.pc = "evidence", "conf_forced_ckpt_position") \cup PayloadOK(t2, ev)]
+              IN IF t1.pc = "evidence"
+                   THEN [s |-> DoCkpt(t2, A, TRUE),
+                         aux |-> [aux EXCEPT !.ckIters = Append(@, <<ev.iter, TRUE>>)],
+                         gaux |-> [gaux EXCEPT !.lastBytes = ev.bytes],
+                         v |-> V(A.every > 0, "conf_ckpt_without_cadence") \cup PayloadOK(t2, ev)]
+                 ELSE \* a checkpoint that is neither due nor final
+                      [s |-> t0, aux |-> aux, gaux |-> [gaux EXCEPT !.lastBytes = ev.bytes],
+                       v |-> {"CadenceExact"}]
     [] ev.t = "file" ->
          [s |-> s, aux |-> aux, gaux |-> gaux,
           v |-> V(gaux.lastBytes = 0 \/ ev.blob = gaux.lastBytes, "FileHoldsLatest")
@@ -199,7 +214,7 @@ Process(ev, i) ==
                \* ---- C06
                \cup V(\A k \in 1..T : ev.betas[k] > bAt(k - 1), "StrictlyIncreasing")
                \cup V(\A k \in 1..T : ev.in_unit[k] /\ ev.betas[k] <= One, "InUnit")
-               \cup V(T > 0 /\ (ev.betas[T] = One \/ (Cfg.max_n_steps > 0 /\ T = Cfg.max_n_steps)) , "EndsAtOneOrCap")
+               \cup V(T > 0 /\ (ev.betas[T] = One \/ (RC.max_n_steps > 0 /\ T = RC.max_n_steps)) , "EndsAtOneOrCap")
                \cup V(Cfg.adaptive \/ Cfg.max_n_steps > 0 \/ T = Cfg.n_steps, "FixedExactlyN")
                \cup V(Cfg.max_n_steps = 0 \/ T <= Cfg.max_n_steps, "CapHonoured")
                \cup V(\A k \in 1..T : ev.floor_ok[k] # "no", "FloorHonoured")
@@ -213,15 +228,15 @@ Process(ev, i) ==
                \* ---- C10
                \cup V(SeqAll(ev.coh, LAMBDA c : c[1] /\ c[2] /\ c[3]) /\ ev.res_coh[1] /\ ev.res_coh[2], "CachedCoherent")
                \cup V(R.resumed \/ (ev.init_size = Cfg.N /\ ev.finite_prior), "InitialPopulation")
-               \cup V(ev.size = (IF Cfg.n_final > 0 THEN Cfg.n_final ELSE Cfg.N), "conf_result_size")
+               \cup V(ev.size = (IF RC.n_final > 0 THEN RC.n_final ELSE Cfg.N), "conf_result_size")
                \* ---- C15
                \cup V(ev.widths = <<Cfg.width>> /\ ev.res_width = Cfg.width /\ ev.res_ns = Cfg.ns, "PrecisionKept")
                \* ---- C17
                \cup V(ev.nlike = aux.sumN, "CountExact")
                \cup V(ev.nlike = t3.nlike, "conf_count_model")
                \* ---- C12
-               \cup V(Cfg.every = 0 \/ \A k \in (t3.startIter + 1)..T : (k % Cfg.every = 0) <=> (k \in regular), "CadenceExact")
-               \cup V(Cfg.every = 0 \/ sawForced, "CadenceExact_final")
+               \cup V(RC.every = 0 \/ \A k \in (t3.startIter + 1)..T : (k % RC.every = 0) <=> (k \in regular), "CadenceExact")
+               \cup V(RC.every = 0 \/ sawForced, "CadenceExact_final")
                \* ---- C11 / C20
                \cup V(cmp => /\ ev.betas = ref.betas /\ ev.pops = ref.pops /\ ev.logz = ref.logz
                              /\ ev.logzerr = ref.logzerr /\ ev.res_pop = ref.res_pop
@@ -256,7 +271,7 @@ NextRun ==
   /\ ri <= Len(G.runs) /\ l > Len(Evs)
   /\ viol' = viol \cup {<<ri, n>> : n \in RunEnd}
   /\ ri' = ri + 1 /\ l' = 1
-  /\ s' = Fresh(A) /\ aux' = FreshAux
+  /\ s' = Fresh(AOf(ri + 1)) /\ aux' = FreshAux
   /\ UNCHANGED <<gi, gaux, args, unused>>
 
 Verdict ==
